@@ -39,6 +39,8 @@ static int nextGenericKeyIter(SetIteration* i)
 {
     PyObject* next = NULL;
     int copied = 1;
+    int cmp;
+    KEY_TYPE key;
 
     if (i->position < 0)
     {
@@ -46,32 +48,59 @@ static int nextGenericKeyIter(SetIteration* i)
         return 0;
     }
 
-    if (i->position)
+    while (1)
     {
-        /* If we've been called before, release the key cache. */
-        DECREF_KEY(i->key);
-    }
-
-    i->position += 1;
-    next = PyIter_Next(i->set);
-    if (next == NULL)
-    {
-        /* Either an error, or the end of iteration. */
-        if (!PyErr_Occurred())
+        next = PyIter_Next(i->set);
+        if (next == NULL)
         {
+            /* Either an error, or the end of iteration. */
+            if (PyErr_Occurred())
+            {
+                /* Propagate the error.  If we've been called before,
+                   finiSetIteration releases the key cache. */
+                return -1;
+            }
             /* End of iteration. */
+            if (i->position)
+            {
+                /* If we've been called before, release the key cache. */
+                DECREF_KEY(i->key);
+            }
             i->position = -1;
             return 0;
         }
-        /* Propagate the error. */
-        return -1;
-    }
 
-    COPY_KEY_FROM_ARG(i->key, next, copied);
-    Py_DECREF(next);
-    UNLESS(copied) return -1;
-    INCREF_KEY(i->key);
-    return 0;
+        COPY_KEY_FROM_ARG(key, next, copied);
+        UNLESS(copied)
+        {
+            Py_DECREF(next);
+            return -1;
+        }
+
+        if (i->position)
+        {
+            /* We iterate over a sorted copy of an arbitrary iterable,
+               which may hold duplicates; as a set operand it
+               contributes each key once. */
+            TEST_KEY_SET_OR(cmp, key, i->key)
+            {
+                Py_DECREF(next);
+                return -1;
+            }
+            if (cmp == 0)
+            {
+                Py_DECREF(next);
+                continue;
+            }
+            DECREF_KEY(i->key);
+        }
+
+        COPY_KEY(i->key, key);
+        INCREF_KEY(i->key);
+        Py_DECREF(next);
+        i->position += 1;
+        return 0;
+    }
 }
 
 /* initSetIteration
